@@ -1573,7 +1573,12 @@ class Tensor:
 
             root = self._modifyRoot(swap, swapBelow, depth=depth)
         else:
-            root = copy.deepcopy(self.getRoot())
+            #
+            # Nothing to swap: every fiber at this rank (hence the whole
+            # tensor) is empty. Note: copying the root would leave its
+            # coordinates under the wrong (swapped) rank ids
+            #
+            root = Fiber()
 
         #
         # Create Tensor from rank_ids and root fiber
